@@ -3,6 +3,8 @@ import F3.Spec.CertX
 import F3.Proofs.CertX
 import F3.Proofs.CertXPoll
 import F3.Proofs.CertXGen
+import F3.Spec.CertXArrivals
+import F3.Proofs.CertXArrivals
 /-!
 # C16 — Certificate exchange serves exact store slices; pollers store only verified certificates
 
@@ -461,5 +463,191 @@ example : serveGen Ex.st ⟨4, 2, true⟩ = some (⟨7, some Ex.t⟩, [Ex.c 4, E
     serveGen Ex.st ⟨7, 5, true⟩ = some (⟨7, some Ex.t⟩, []) := by decide
 example : F3.Gen.CertX.serveEnd 256 (2 ^ 64 - 10) (2 ^ 64 - 1) = 2 ^ 64 - 2 ∧
     F3.Gen.CertX.serveEnd 2 4 7 = 5 ∧ F3.Gen.CertX.serveLimit 1000 = 256 := by decide
+
+/-! ## Polling while certificates also reach the store through another channel
+
+`pollWithArrivals` (driven by the correspondence check as well): after `CatchUp` of the first request and
+before its response is read, `arrivals` are `Put` into the poller's own store by somebody else (GPBFT
+finalising the instance itself). This is the only window in which a received certificate can already be in
+the store — the `isFresh = false` branch of `Poll`, which must still advance `NextInstance` **and**
+`PowerTable`. `st0` is the poller after `CatchUp`, `pre = putAll st0.store arrivals` its store once the
+arrivals are in (what the store refuses is ignored), `handedOver respond st0.next` what `Client.Request`
+gives to `Poll` out of the answer to the first request. -/
+section Arrivals
+open F3.Spec.Certs F3.Spec.CertX
+
+/-- **Whatever a peer sends and whatever arrives meanwhile, the poller stores only certificates that
+validate against its own current power table, in sequence.** For every responder, fuel, list of arrivals:
+the arrivals only append to the store (`added`, a sublist of them); the final store is `pre` extended by
+`new`; the poller first walks over `skipped` — a prefix of what the client handed over, all for instances
+`pre` already holds, each validated by `stepCert` from the poller's instance / table at that point and *not*
+stored — reaching instance `m` with table `tm`; and `new` validates in sequence either from there (then `m`
+is the store's next instance as soon as anything is stored) or, when the first response ended before the
+poller reached the head of its store, from the store's own head `(pre.nextInst, latest table)` to which
+`CatchUp` of the second request took it. As soon as anything is stored the poller is `Consistent` with its
+store again — without any assumption on the peer: `Put` re-checks the delta and the table commitment
+against the store's own latest table. `NewCertificates` counts `new`. -/
+theorem poll_with_arrivals_store (net : Nat) (respond : Nat → Nat → Resp) (fuel : Nat) (arrivals : List Cert)
+    (st st0 : PState) (res : PollRes) (hcu : catchUp st = some st0) (hc : Consistent st0)
+    (hroom : st0.store.nextInst + arrivals.length + (fuel + 1) * maxRequestLength < 2 ^ 64)
+    (st' : PState) (res' : PollRes) (h : pollWithArrivals net respond fuel arrivals st res = (st', res')) :
+    (∃ added, added.Sublist arrivals ∧
+      putAll st0.store arrivals = { st0.store with certs := st0.store.certs ++ added }) ∧
+    ∃ skipped new m tm,
+      st'.store = { putAll st0.store arrivals with certs := (putAll st0.store arrivals).certs ++ new } ∧
+      skipped <+: handedOver respond st0.next ∧
+      (∀ c ∈ skipped, c.inst < (putAll st0.store arrivals).nextInst) ∧
+      PollRun net (st0.next, st0.table) skipped (m, tm) ∧
+      ((PollRun net (m, tm) new (st'.next, st'.table) ∧ (new ≠ [] → m = (putAll st0.store arrivals).nextInst)) ∨
+       (m < (putAll st0.store arrivals).nextInst ∧
+          ∃ lt, (putAll st0.store arrivals).latestTable = some lt ∧
+            PollRun net ((putAll st0.store arrivals).nextInst, lt) new (st'.next, st'.table))) ∧
+      (new ≠ [] → Consistent st') ∧ res'.newCerts = res.newCerts + new.length := by
+  obtain ⟨added, hshape, hsub, _⟩ := putAll_shape st0.store arrivals
+  refine ⟨⟨added, hsub, hshape⟩, ?_⟩
+  obtain ⟨skipped, new, m, tm, hstore, hpre, hrunS, hmid, hmle, _, hnc, hcons, hd⟩ :=
+    pollWithArrivals_spec net respond fuel arrivals st st0 res hcu hc hroom st' res' h
+  have hlen : added.length ≤ arrivals.length := hsub.length_le
+  have hnext : (putAll st0.store arrivals).nextInst = st0.store.nextInst + added.length := by
+    rw [hshape]; unfold Store.nextInst; simp only [List.length_append]; omega
+  refine ⟨skipped, new, m, tm, hstore, hpre, ?_, hrunS, ?_, hcons, hnc⟩
+  · intro c hc'
+    exact (pollRun_inst_lt hrunS _ (by show st0.next + skipped.length ≤ _; omega) (by omega) c hc').2
+  · rcases hd with hd | ⟨h1, _, h2⟩
+    · exact Or.inl hd
+    · exact Or.inr ⟨h1, h2⟩
+
+/-- **… and advances exactly to a point of its store**, provided the certificates the peer sends for
+instances the store already holds carry the stored power-table deltas (`Genuine`; implied by "they are the
+stored certificates", `GenuineEq`, and with less than a third of faulty power two validly signed
+certificates for one instance decide the same value, hence commit to the same next table). Then afterwards
+`NextInstance` has not moved back, is at most the store's next instance, and `PowerTable` is the store's
+table for `NextInstance` — in whichever branch (`isFresh` or not) each certificate was processed. This is
+exactly what `CatchUp` needs to make the poller `Consistent` again (`in_sync_catch_up`), and it survives
+the store growing further (`in_sync_store_grows`). Without `Genuine` the statement is false: see the
+`example` after `Ex.forged`. -/
+theorem poll_with_arrivals_in_sync (net : Nat) (respond : Nat → Nat → Resp) (fuel : Nat) (arrivals : List Cert)
+    (st st0 : PState) (res : PollRes) (hcu : catchUp st = some st0) (hc : Consistent st0)
+    (hroom : st0.store.nextInst + arrivals.length + (fuel + 1) * maxRequestLength < 2 ^ 64)
+    (hg : Genuine (putAll st0.store arrivals) (handedOver respond st0.next))
+    (st' : PState) (res' : PollRes) (h : pollWithArrivals net respond fuel arrivals st res = (st', res')) :
+    st0.next ≤ st'.next ∧ st'.next ≤ st'.store.nextInst ∧
+      st'.store.getPowerTable st'.next = some st'.table ∧ InSync st' := by
+  obtain ⟨hs, hle⟩ := pollWithArrivals_inSync net respond fuel arrivals st st0 res hcu hc hroom hg st' res' h
+  exact ⟨hle, hs.hi, hs.table, hs⟩
+
+/-- the hypothesis of `poll_with_arrivals_in_sync` in its familiar form: the peer sends, for instances the
+store holds, the stored certificates -/
+theorem genuine_of_stored (s : Store) (ds : List Cert) (h : GenuineEq s ds) : Genuine s ds :=
+  genuine_of_eq h
+
+/-- **No arrivals: the old `Poll`.** `pollWithArrivals` conservatively extends `poll`. -/
+theorem poll_with_arrivals_no_arrivals (net : Nat) (respond : Nat → Nat → Resp) (fuel : Nat) (st : PState)
+    (res : PollRes) : pollWithArrivals net respond fuel [] st res = poll net respond (fuel + 1) 0 st res := by
+  rw [pollWithArrivals_eq, poll]
+  cases catchUp st with
+  | none => rfl
+  | some st0 => rfl
+
+/-- a poller that is a point of its store is made `Consistent` by the `CatchUp` at the start of the next
+`Poll` (so the precondition `hcu`/`hc` of the two theorems above is what the previous poll left behind) -/
+theorem in_sync_catch_up (st st0 : PState) (hs : InSync st) (hw : NoWrap st.store)
+    (h : catchUp st = some st0) : Consistent st0 ∧ st0.store = st.store :=
+  catchUp_of_inSync hs (by unfold NoWrap at hw; unfold Store.nextInst; exact hw) h
+
+/-- … and stays a point of its store when the store grows behind its back -/
+theorem in_sync_store_grows (st : PState) (hs : InSync st) (ext : List Cert) :
+    InSync { st with store := { st.store with certs := st.store.certs ++ ext } } :=
+  inSync_grow hs ext
+
+/-! ### Non-vacuity: a store whose table evolves -/
+
+namespace Ex
+def t1 : Table := [⟨1, 30, 7⟩, ⟨2, 20, 8⟩, ⟨3, 15, 9⟩]
+def t2 : Table := [⟨1, 30, 7⟩, ⟨3, 15, 9⟩]
+/-- certificate for `inst`, signed (network 1) by the signers `ss` of table `t`, moving the table to `nt` -/
+def mkD (inst : Nat) (t nt : Table) (delta : Diff) (ss : List Nat) : Cert :=
+  { inst := inst, chain := [b (inst : Int), b ((inst : Int) + 1)], comm := 0, pt := CidTok.table nt,
+    signers := some ss,
+    sig := SigTok.agg (ss.map (fun i => (i, keyAt t i)))
+      ⟨1, inst, 0, decidePhase, 0, CidTok.table nt, [b (inst : Int), b ((inst : Int) + 1)]⟩,
+    delta := delta }
+def d0 : Cert := mkD 0 t0 t0 [] [0, 1]
+/-- participant 3 gains power: `t0 → t1` -/
+def d1 : Cert := mkD 1 t0 t1 [⟨3, 5, 0⟩] [0, 1]
+def d2 : Cert := mkD 2 t1 t1 [] [0, 1]
+/-- participant 2 leaves: `t1 → t2` -/
+def d3 : Cert := mkD 3 t1 t2 [⟨2, -20, 0⟩] [0, 1]
+/-- signed by participants 1 and 3 — a quorum of `t2` only -/
+def d4 : Cert := mkD 4 t2 t2 [] [0, 1]
+/-- the poller: two certificates stored, the second changed the table -/
+def q0 : PState := ⟨2, t1, ⟨0, t0, [d0, d1]⟩⟩
+/-- the peer serves three certificates from the poller's `NextInstance` -/
+def peer : Nat → Nat → Resp := scriptResponder [.ok 5 [some d2, some d3, some d4]]
+/-- another decision of instance 1: the table stays `t0` -/
+def d1' : Cert := mkD 1 t0 t0 [] [0, 1]
+/-- what a peer sends for instance 1 when the store holds `d1'`: validly signed under `t0` as well, but with
+another delta (`t0 → t1`) -/
+def forged : Cert := mkD 1 t0 t1 [⟨3, 5, 0⟩] [0, 1]
+def r0 : PState := ⟨1, t0, ⟨0, t0, [d0]⟩⟩
+end Ex
+
+-- the poller is consistent (so `CatchUp` leaves it alone) …
+example : catchUp Ex.q0 = some Ex.q0 ∧ Consistent Ex.q0 :=
+  ⟨by decide, ⟨by decide, by decide, by decide⟩⟩
+example : Ex.q0.store.nextInst + [Ex.d2, Ex.d3].length + (5 + 1) * maxRequestLength < 2 ^ 64 := by decide
+-- … instances 2 and 3 are decided locally while the request is in flight; both are accepted by the store,
+-- the second changes the table
+example : putAll Ex.q0.store [Ex.d2, Ex.d3] = ⟨0, Ex.t0, [Ex.d0, Ex.d1, Ex.d2, Ex.d3]⟩ := by decide
+example : handedOver Ex.peer Ex.q0.next = [Ex.d2, Ex.d3, Ex.d4] := by decide
+example : GenuineEq (putAll Ex.q0.store [Ex.d2, Ex.d3]) (handedOver Ex.peer Ex.q0.next) := by
+  unfold GenuineEq; decide
+-- the poll: 2 and 3 are validated and passed over (table moves `t1 → t1 → t2`), 4 — signed by a quorum of
+-- `t2` only — is validated against `t2` and stored: received 3, new 1
+example : pollWithArrivals 1 Ex.peer 5 [Ex.d2, Ex.d3] Ex.q0 {} =
+    (⟨5, Ex.t2, ⟨0, Ex.t0, [Ex.d0, Ex.d1, Ex.d2, Ex.d3, Ex.d4]⟩⟩,
+     { status := .hit, received := 3, newCerts := 1, internal := false }) := by decide
+example : (pollWithArrivals 1 Ex.peer 5 [Ex.d2, Ex.d3] Ex.q0 {}).1.store.getPowerTable 5 = some Ex.t2 := by decide
+-- `d4` does not validate against the table before the passed-over certificates: a poller that advanced
+-- `NextInstance` but not `PowerTable` in the not-fresh branch would call the peer illegal
+example : (pollCert 1 ⟨4, Ex.t1, ⟨0, Ex.t0, [Ex.d0, Ex.d1, Ex.d2, Ex.d3]⟩⟩ {} Ex.d4).2.2 = .illegal := by decide
+-- the first response ends before the head of the store: the second request's `CatchUp` takes over
+-- (second disjunct of `poll_with_arrivals_store`)
+example : pollWithArrivals 1 (scriptResponder [.ok 5 [some Ex.d2], .ok 5 [some Ex.d4]]) 5 [Ex.d2, Ex.d3] Ex.q0 {} =
+    (⟨5, Ex.t2, ⟨0, Ex.t0, [Ex.d0, Ex.d1, Ex.d2, Ex.d3, Ex.d4]⟩⟩,
+     { status := .hit, received := 2, newCerts := 1, internal := false }) := by decide
+-- no arrivals
+example : pollWithArrivals 1 Ex.peer 5 [] Ex.q0 {} = poll 1 Ex.peer 6 0 Ex.q0 {} := by decide
+-- `InSync` of a lagging poller, `CatchUp` from it
+example : InSync (⟨2, Ex.t1, ⟨0, Ex.t0, [Ex.d0, Ex.d1, Ex.d2, Ex.d3]⟩⟩ : PState) :=
+  ⟨by decide, by decide, by decide, by decide⟩
+example : catchUp ⟨2, Ex.t1, ⟨0, Ex.t0, [Ex.d0, Ex.d1, Ex.d2, Ex.d3]⟩⟩ =
+    some ⟨4, Ex.t2, ⟨0, Ex.t0, [Ex.d0, Ex.d1, Ex.d2, Ex.d3]⟩⟩ := by decide
+
+/-- **Without `Genuine` the conclusion of `poll_with_arrivals_in_sync` fails.** The poller stands at
+instance 1 with `t0`; instance 1 is decided locally meanwhile (`d1'`, table unchanged); the peer answers with
+`forged`: another certificate for instance 1, validly signed by a quorum of `t0` (so more than a third of
+the power signed two decisions), whose delta moves the table to `t1`. Every hypothesis but `Genuine` holds;
+the certificate validates, is not stored (the instance is there), and the poller ends at instance 2 holding
+`t1` while its store's table for instance 2 is `t0`. -/
+example :
+    catchUp Ex.r0 = some Ex.r0 ∧ Ex.r0.store.nextInst + [Ex.d1'].length + (5 + 1) * maxRequestLength < 2 ^ 64 ∧
+    putAll Ex.r0.store [Ex.d1'] = ⟨0, Ex.t0, [Ex.d0, Ex.d1']⟩ ∧
+    pollWithArrivals 1 (scriptResponder [.ok 2 [some Ex.forged]]) 5 [Ex.d1'] Ex.r0 {} =
+      (⟨2, Ex.t1, ⟨0, Ex.t0, [Ex.d0, Ex.d1']⟩⟩, { status := .hit, received := 1, newCerts := 0, internal := false }) ∧
+    (⟨0, Ex.t0, [Ex.d0, Ex.d1']⟩ : Store).getPowerTable 2 = some Ex.t0 ∧ Ex.t0 ≠ Ex.t1 := by decide
+example : Consistent Ex.r0 := ⟨by decide, by decide, by decide⟩
+example : ¬ Genuine (putAll Ex.r0.store [Ex.d1']) (handedOver (scriptResponder [.ok 2 [some Ex.forged]]) Ex.r0.next) := by
+  intro hg
+  obtain ⟨stored, h1, h2⟩ := hg Ex.forged (by decide) (by decide) (by decide)
+  have h3 : stored = Ex.d1' := by
+    have : (putAll Ex.r0.store [Ex.d1']).certs[Ex.forged.inst - (putAll Ex.r0.store [Ex.d1']).first]? = some Ex.d1' := by
+      decide
+    rw [this] at h1; exact (Option.some.inj h1).symm
+  rw [h3] at h2
+  exact absurd h2 (by decide)
+
+end Arrivals
+
 
 end F3.Props.C16
